@@ -272,9 +272,17 @@ def run(ctx):
     if not peeks:
         raise AnalysisError("R11.3: find_adapter_for_stream does not peek")
     peeked = norm(peeks[0].func.value)
+    facfg = CFG(find_adapter)
+    pk_node = (facfg.header_node_for_expr(peeks[0]) or facfg.node_of(peeks[0])).id
+    peeked_src = facfg.copy_source(peeked, pk_node) if isinstance(peeks[0].func.value, ast.Name) else peeked
     for r in rets:
         first = r.value.elts[0] if isinstance(r.value, ast.Tuple) and r.value.elts else r.value
-        ctx.check(norm(first) == peeked, "R11.3", f"find_adapter_for_stream:return {norm(r.value)[:40]}",
+        first_src = facfg.copy_source(first.id, facfg.node_of(r).id) if isinstance(first, ast.Name) else norm(first)
+        same = norm(first) == peeked or first_src == peeked_src or first_src == peeked
+        # ... and the peeked object has not been re-bound between the peek and the return
+        if same and isinstance(peeks[0].func.value, ast.Name) and first_src == peeked_src and norm(first) != peeked:
+            same = facfg.reaching_defs(peeked_src).get(facfg.node_of(r).id, set()) == facfg.reaching_defs(peeked_src).get(pk_node, set())
+        ctx.check(same, "R11.3", f"find_adapter_for_stream:return {norm(r.value)[:40]}",
                   f"returns `{norm(first)}` although the bytes were peeked from `{peeked}`: when the input had no peek() (e.g. a zstandard reader) the caller gets the raw "
                   "object back - the buffered bytes are lost or the adapter receives an object it cannot read", r, f"returns the sniffed object `{peeked}`",
                   key="R11.3:find_adapter_for_stream:returns-unsniffed-object")
